@@ -114,6 +114,45 @@ def main(argv):
     # ---- the Python layer alone, on scripted socket results, against Model.PyLayer (lib/pylayer.py)
     n_pl, d_pl = pylayer.run(c, codec_exe, c.rng, 1500 if thorough else 300, "C03")
     c.coverage["python_layer_cases"] = n_pl
+    # ---- sessions that discover their engine id, with the first discovery probe lost and the entry retried: every request
+    # afterwards carries the CONFIGURED user, the security flags of its keys and the agent's engine id
+    report = {"pdu_tag": 0xA8, "mac": "absent", "encrypt": "no", "flags": 0}
+    dsc = []
+    for mode in ("sync", "async"):
+        for auth, priv in ((None, None), (["md5", 0, b"authpass77".hex()], None), (["sha1", 1, "ab" * 20], ["aes", 0, b"privpass88".hex()])):
+            for lost in (True, False):
+                steps = ([{"op": "enter", "replies": [[]]}] if lost else []) + [{"op": "enter", "replies": [[report]], "default_reply": report}]
+                steps += [{"op": "get", "args": ["1.3.6.1.2.1.1.5.0"], "replies": [[{"vbs": ""}]]},
+                          {"op": "get_many", "args": [["1.3.6.1.2.1.1.5.0", "1.3.6.1.2.1.1.6.0"]], "replies": [[{"vbs": ""}]]}]
+                dsc.append({"version": "v3", "mode": mode, "timeout": 0.25, "steps": steps, "_lost": lost,
+                            "v3": {"user": "monitor", "auth": auth, "priv": priv, "engine_id": None, "agent_engine_id": "80001f8880a1b2c3d4e5", "boots": 4, "time": 44}})
+    resd, logd = vf.run_api_worker("C03", {"generic_scenarios": [{k: v for k, v in sc.items() if not k.startswith("_")} for sc in dsc], "model_exe": v3exe})
+    if resd is None:
+        c.errors.append("API worker failed: " + logd[-1500:])
+    else:
+        for sc, rec in zip(dsc, resd["records"]):
+            if "driver_error" in rec:
+                c.errors.append("API driver error: " + rec["driver_error"])
+                continue
+            want_flags = (1 if sc["v3"]["auth"] else 0) | (2 if sc["v3"]["priv"] else 0)
+            for st, out in list(zip(sc["steps"], rec["steps"]))[(2 if sc["_lost"] else 1):]:
+                for q in out["requests"]:
+                    c.count(("v3-discovered", sc["mode"], sc["_lost"], want_flags, st["op"]), True)
+                    prob = None
+                    if "error" in q:
+                        prob = "not a well-formed message: " + q["error"]
+                    elif q.get("user") != b"monitor".hex():
+                        prob = "user name %r on the wire" % bytes.fromhex(q.get("user", "")).decode("latin1")
+                    elif q.get("flags", 0) & 3 != want_flags:
+                        prob = "security flags %d, the session's keys require %d" % (q.get("flags", 0) & 3, want_flags)
+                    elif q.get("engine_id") != sc["v3"]["agent_engine_id"]:
+                        prob = "engine id %s on the wire" % q.get("engine_id")
+                    if prob:
+                        c.violation("v3/%s session of user 'monitor' (engine id discovered%s): %s request: %s"
+                                    % (sc["mode"], ", first probe lost and entry retried" if sc["_lost"] else "", st["op"], prob),
+                                    {"scenario": {k: v for k, v in sc.items() if not k.startswith("_")}, "request": {k: q.get(k) for k in ("user", "flags", "engine_id", "auth", "priv")}},
+                                    key="v3-discovered:" + prob.split(" ")[0])
+                        break
     # ---- the id generator itself, from any state (guarded hook RequestId::verif_set of /repo, MANIFEST.hooks): whatever was
     # handed out before - the top of the range included - the next ids lie in 0..2^31-1 and only the id handed out matches
     okh, logh, hexe = vf.cargo_build_harness("release")
@@ -149,6 +188,13 @@ def main(argv):
 
 # ------------------------------------------------------------------------------------------------------------
 def api_main(g, job):
+    if "generic_scenarios" in job:
+        import scen as _scen
+        return _scen.api_main_generic(g, dict(job, scenarios=job["generic_scenarios"]))
+    return _api_main(g, job)
+
+
+def _api_main(g, job):
     """Worker: several sessions alive at once, calls interleaved; returns every emitted datagram with its oracle verdict
     and the model command that must reproduce it."""
     import random
